@@ -146,6 +146,32 @@ func vfC12WGenSteps(rt *rapid.T, cfg vfC12WCfg) []vfC12WStep {
 		}
 		steps = append(steps, st)
 	}
+	// Dedicated phrase (often, and most often for the no-delay goroutine mode): a write blocked at the gate, a backlog
+	// behind it, close() parked on writer.mu behind the blocked write, producers still enqueueing, then the release.
+	phraseP := 4
+	if cfg.Mode == 0 {
+		phraseP = 2
+	}
+	if rapid.IntRange(0, phraseP-1).Draw(rt, "closePhrase") == 0 {
+		if gated {
+			steps = append(steps, vfC12WStep{Op: "ungate", Settle: true})
+		}
+		steps = append(steps, vfC12WStep{Op: "gate"}, vfC12WStep{Op: "enq", Sizes: vfC12WGenSizes(rt), Settle: true})
+		if cfg.Delay > 0 {
+			steps = append(steps, vfC12WStep{Op: "sleep", D: cfg.Delay, Settle: true})
+		}
+		for k := rapid.IntRange(1, 4).Draw(rt, "backlog"); k > 0; k-- {
+			steps = append(steps, vfC12WStep{Op: "enq", Sizes: vfC12WGenSizes(rt)})
+		}
+		steps = append(steps, vfC12WStep{Op: "close", Flush: rapid.IntRange(0, 4).Draw(rt, "pflush") > 0})
+		for k := rapid.IntRange(0, 3).Draw(rt, "during"); k > 0; k-- {
+			steps = append(steps, vfC12WStep{Op: "enq", Sizes: vfC12WGenSizes(rt)})
+		}
+		steps = append(steps, vfC12WStep{Op: "ungate", Settle: true})
+		for k := rapid.IntRange(0, 2).Draw(rt, "after"); k > 0; k-- {
+			steps = append(steps, vfC12WStep{Op: "enq", Sizes: vfC12WGenSizes(rt), Settle: true})
+		}
+	}
 	return steps
 }
 
@@ -253,7 +279,7 @@ type vfC12WEnq struct {
 }
 
 type vfC12WStats struct {
-	calls, multiBatches, fullBatches, gatedWrites, growths, slow, closedRes, closePending, failed, async, races, drains, exactSlow int
+	calls, multiBatches, fullBatches, gatedWrites, growths, slow, closedRes, closePending, failed, async, races, drains, exactSlow, parallelEnq, parkedClose int
 }
 
 func vfC12WRun(cfg vfC12WCfg, steps []vfC12WStep, stt *vfC12WStats) string {
@@ -307,6 +333,7 @@ func vfC12WRun(cfg vfC12WCfg, steps []vfC12WStep, stt *vfC12WStats) string {
 		nextID      int
 		gateClosed  bool
 		closeIssued bool
+		closeParked bool // a close() sits on writer.mu behind a write that is blocked in the gate
 		closeStep   = -1
 		closeFlush  bool
 		accAtClose  int
@@ -398,9 +425,48 @@ func vfC12WRun(cfg vfC12WCfg, steps []vfC12WStep, stt *vfC12WStats) string {
 		_ = where
 		return ""
 	}
+	// doClose calls writer.close and records, at the instant the FIRST close returns, how much had been handed to
+	// the write functions by then.
+	closeRetCalls, closeRetMsgs := -1, 0
+	doClose := func(flush, first bool) {
+		_ = w.close(flush)
+		if first {
+			rec.mu.Lock()
+			closeRetCalls = len(rec.calls)
+			for _, cl := range rec.calls {
+				closeRetMsgs += len(cl.IDs)
+			}
+			rec.mu.Unlock()
+		}
+	}
+	// checkClose (at quiescence): obligations tied to the instant close() returned.
+	checkClose := func(where string) string {
+		rec.mu.Lock()
+		retCalls, retMsgs := closeRetCalls, closeRetMsgs
+		rec.mu.Unlock()
+		if retCalls < 0 {
+			return ""
+		}
+		calls := rec.snapshot()
+		failed := false
+		for _, cl := range calls {
+			failed = failed || cl.Failed
+		}
+		if closeFlush && !failed && retMsgs < accAtClose {
+			return fmt.Sprintf("%s: at the instant close(flush=true) (step %d) returned only %d of the %d messages accepted before the call had been handed to the transport; accepted %v, all writes %v",
+				where, closeStep, retMsgs, accAtClose, accepted[:accAtClose], vfC12WFlat(calls))
+		}
+		if len(calls) > retCalls {
+			return fmt.Sprintf("%s: write call %d (%v) was issued after close() (step %d) had returned", where, retCalls, calls[retCalls].IDs, closeStep)
+		}
+		return ""
+	}
 	settle := func(where string) string {
 		vfSettle()
 		if m := resolve(where); m != "" {
+			return m
+		}
+		if m := checkClose(where); m != "" {
 			return m
 		}
 		if !closeIssued {
@@ -469,7 +535,10 @@ func vfC12WRun(cfg vfC12WCfg, steps []vfC12WStep, stt *vfC12WStats) string {
 		blocked := rec.blocked.Load() > 0
 		switch st.Op {
 		case "enq":
-			e := &vfC12WEnq{step: i, rAfter: -1, accepted: !closeIssued}
+			// In the goroutine modes enqueue never touches writer.mu: while a close() is parked behind a gated write the
+			// queue is still open, so a producer racing that close gets its messages accepted.
+			parallel := cfg.Mode != 2 && closeParked
+			e := &vfC12WEnq{step: i, rAfter: -1, accepted: !closeIssued || parallel}
 			items := make([]queue.Item, len(st.Sizes))
 			for k, s := range st.Sizes {
 				items[k] = vfC12WItem(nextID, s)
@@ -483,7 +552,10 @@ func vfC12WRun(cfg vfC12WCfg, steps []vfC12WStep, stt *vfC12WStats) string {
 			}
 			e.accBytes = accBytes
 			enqs = append(enqs, e)
-			if viaWorker || (gateClosed && blocked && cfg.Mode == 2) {
+			if parallel {
+				stt.parallelEnq++
+				doEnq(e, items)
+			} else if viaWorker || (gateClosed && blocked && cfg.Mode == 2) {
 				stt.async++
 				submitted++
 				jobs <- func() { doEnq(e, items) }
@@ -506,6 +578,15 @@ func vfC12WRun(cfg vfC12WCfg, steps []vfC12WStep, stt *vfC12WStats) string {
 			}
 		case "ungate":
 			if gateClosed {
+				if closeParked {
+					// sync.Mutex hands the lock directly to a waiter that has been waiting for more than 1ms of REAL
+					// time; virtual sleeps do not count, so burn a little real time before releasing the write.
+					stt.parkedClose++
+					for k := 0; k < 40000; k++ {
+						runtime.Gosched()
+					}
+				}
+				closeParked = false
 				rec.mu.Lock()
 				g := rec.gate
 				rec.gate = nil
@@ -552,17 +633,14 @@ func vfC12WRun(cfg vfC12WCfg, steps []vfC12WStep, stt *vfC12WStats) string {
 			closeIssued = true
 			flush := st.Flush
 			if viaWorker || gateClosed {
+				if gateClosed && blocked && !viaWorker {
+					closeParked = true // `blocked` is fresh (quiescence was reached at the top of this step)
+				}
 				stt.async++
 				submitted++
-				jobs <- func() { _ = w.close(flush) }
+				jobs <- func() { doClose(flush, first) }
 			} else {
-				_ = w.close(flush)
-				if first && flush {
-					if n, failed := written(); !failed && n < accAtClose {
-						return fail(fmt.Sprintf("%s: close(flush=true) returned but only %d of the %d messages accepted before it were written: %v; accepted %v",
-							where, n, accAtClose, vfC12WFlat(rec.snapshot()), accepted))
-					}
-				}
+				doClose(flush, first)
 			}
 		}
 		if !st.Settle && !gateClosed {
@@ -577,6 +655,13 @@ func vfC12WRun(cfg vfC12WCfg, steps []vfC12WStep, stt *vfC12WStats) string {
 
 	// ---- end of script: open the gate, reach quiescence, final obligations ------------------------------------------
 	if gateClosed {
+		if closeParked {
+			stt.parkedClose++
+			for k := 0; k < 40000; k++ {
+				runtime.Gosched()
+			}
+		}
+		closeParked = false
 		rec.mu.Lock()
 		g := rec.gate
 		rec.gate = nil
@@ -606,7 +691,7 @@ func vfC12WRun(cfg vfC12WCfg, steps []vfC12WStep, stt *vfC12WStats) string {
 		closeFlush = true
 		accAtClose = len(accepted)
 		closeIssued = true
-		_ = w.close(true)
+		doClose(true, true)
 		if m := settle("final close"); m != "" {
 			return fail(m)
 		}
@@ -622,6 +707,9 @@ func vfC12WRun(cfg vfC12WCfg, steps []vfC12WStep, stt *vfC12WStats) string {
 	time.Sleep(2 * time.Second) // any stray timer would fire here
 	vfSettle()
 	if m := verify("after teardown"); m != "" {
+		return m
+	}
+	if m := checkClose("after teardown"); m != "" {
 		return m
 	}
 	n2, _ := written()
@@ -721,6 +809,12 @@ func TestVF_C12_Writer(t *testing.T) {
 		}
 		if stt.async > 0 {
 			c.Label("writer:ops_behind_blocked_write")
+		}
+		if stt.parkedClose > 0 {
+			c.Label("writer:close_parked_behind_blocked_write")
+		}
+		if stt.parallelEnq > 0 {
+			c.Label("writer:enqueue_while_close_parked")
 		}
 		if stt.drains > 0 {
 			c.Label("writer:mid_script_quiescence_check")
